@@ -18,23 +18,42 @@ inductive FileEv
   | trunc (size : Nat)
 deriving DecidableEq, Repr
 
-/-- a file being written through a store: contents, the store's `size` (next write position)
-    and the log of write calls -/
+/-- a file being written through a store: contents, the store's `size` (next write position),
+    the log of write calls, and the fault plan of property C07: `failAt = some k` makes the k-th
+    `WriteAt` from now fail after `torn` bytes landed; once `failed`, Flush has returned with the
+    error and nothing further happens. -/
 structure FileSt where
   bytes : Bytes
   size : Nat
   log : List FileEv
+  failAt : Option Nat := none
+  torn : Nat := 0
+  failed : Bool := false
 deriving Repr
 
-def FileSt.write (s : FileSt) (b : Bytes) : FileSt :=
-  { bytes := writeAt s.bytes s.size b, size := s.size, log := s.log ++ [.write s.size b.length] }
+/-- one `WriteAt(b, off)` -/
+def FileSt.writeAtOff (s : FileSt) (off : Nat) (b : Bytes) : FileSt :=
+  if s.failed then s
+  else match s.failAt with
+    | some 1 =>
+      let part := b.take s.torn
+      { s with bytes := if part.isEmpty then s.bytes else writeAt s.bytes off part,
+               log := if part.isEmpty then s.log else s.log ++ [.write off part.length],
+               failAt := none, failed := true }
+    | some (k+2) =>
+      { s with bytes := writeAt s.bytes off b, log := s.log ++ [.write off b.length], failAt := some (k+1) }
+    | _ => { s with bytes := writeAt s.bytes off b, log := s.log ++ [.write off b.length] }
 
-def FileSt.advance (s : FileSt) (n : Nat) : FileSt := { s with size := s.size + n }
+def FileSt.write (s : FileSt) (b : Bytes) : FileSt := s.writeAtOff s.size b
+
+def FileSt.advance (s : FileSt) (n : Nat) : FileSt :=
+  if s.failed then s else { s with size := s.size + n }
 
 /-! ### Flush of one collection (`Collection.write`) -/
 
 /-- `writeItems`: unpersisted items of unpersisted nodes, in key order.  The header+key and the
-    value go out as two `WriteAt` calls (`itemLoc.write`, `Store.ItemValWrite`). -/
+    value go out as two `WriteAt` calls (`itemLoc.write`, `Store.ItemValWrite`); the location is
+    recorded and `size` advanced only when both succeeded. -/
 def writeItems : Tree → FileSt → Tree × FileSt
   | .nil, s => (.nil, s)
   | .node l i a b r (some p) q, s => (.node l i a b r (some p) q, s)
@@ -45,12 +64,12 @@ def writeItems : Tree → FileSt → Tree × FileSt
       let (r', s2) := writeItems r s1
       (.node l' i a b r' none (some il), s2)
     | none =>
+      if s1.failed then (.node l' i a b r none none, s1) else
       let off := s1.size
       let s1a := s1.write (encItemHdrKey i)
-      let s1b : FileSt :=
-        { bytes := writeAt s1a.bytes (off + (encItemHdrKey i).length) i.val, size := off,
-          log := s1a.log ++ [.write (off + (encItemHdrKey i).length) i.val.length] }
+      let s1b := s1a.writeAtOff (off + (encItemHdrKey i).length) i.val
       let s1c := s1b.advance (itemRecLen i)
+      if s1c.failed then (.node l' i a b r none none, s1c) else
       let (r', s2) := writeItems r s1c
       (.node l' i a b r' none (some ⟨off, itemRecLen i⟩), s2)
 
@@ -61,14 +80,16 @@ def writeNodes : Tree → FileSt → Tree × FileSt
   | .node l i a b r none q, s =>
     let (l', s1) := writeNodes l s
     let (r', s2) := writeNodes r s1
+    if s2.failed then (.node l' i a b r' none q, s2) else
     let off := s2.size
     let rec_ := encNode { item := q, left := l'.slotLoc, right := r'.slotLoc, nn := a, nb := b }
     let s3 := (s2.write rec_).advance nodeRecLen
+    if s3.failed then (.node l' i a b r' none q, s3) else
     (.node l' i a b r' (some ⟨off, nodeRecLen⟩) q, s3)
 
 def writeTree (t : Tree) (s : FileSt) : Tree × FileSt :=
   let (t1, s1) := writeItems t s
-  writeNodes t1 s1
+  if s1.failed then (t1, s1) else writeNodes t1 s1
 
 /-! ### stores -/
 
@@ -105,15 +126,17 @@ def flushColls : List Coll → FileSt → List Coll × FileSt
   | [], s => ([], s)
   | c :: rest, s =>
     let (t, s1) := writeTree c.root s
+    if s1.failed then ({ c with root := t } :: rest, s1) else
     let (rest', s2) := flushColls rest s1
     ({ c with root := t } :: rest', s2)
 
 def rootEntries (cs : List Coll) : List (Bytes × Option Ploc) :=
   cs.map (fun c => (c.name, c.root.slotLoc))
 
-/-- `Store.Flush` on a writable file-backed store, no faults. -/
+/-- `Store.Flush` on a writable file-backed store (with the fault plan carried by `s`). -/
 def flushStore (cs : List Coll) (s : FileSt) : List Coll × FileSt :=
   let (cs', s1) := flushColls cs s
+  if s1.failed then (cs', s1) else
   let rec_ := encRoot s1.size (rootEntries cs')
   (cs', (s1.write rec_).advance rec_.length)
 
@@ -206,7 +229,7 @@ def copyColls (fe : Nat) : List Coll → List Coll → FileSt → List Coll × F
 /-- `Store.CopyTo(dstFile, flushEvery)` into an empty destination file -/
 def copyTo (src : List Coll) (fe : Int) : List Coll × FileSt :=
   let feN := if fe > 0 then fe.toNat else 0
-  let (cs, s) := copyColls feN src [] ⟨[], 0, []⟩
+  let (cs, s) := copyColls feN src [] { bytes := [], size := 0, log := [] }
   if fe > 0 then flushStore cs s else (cs, s)
 
 end Gkv
